@@ -160,12 +160,12 @@ func main() {
 	r := seq.New("C15", tier, "model_checking")
 	defer r.CrashGuard()
 	r.Rule = "one evaluation = one history of WriteLevel/Trigger/Close calls applied to two TriggerLevelWriter instances one after the other (so the second takes the first one's pooled buffer), executed on the real writer in lock-step with the reference model, or one interleaving of a concurrent scenario; distinct = distinct (levels, history, destination sequence); non-trivial = at least one line was held back"
-	r.Assumptions = []string{"levels from {-128,-1,0,1,3,9,127} (never 10, the separator byte)", "lines end in exactly one newline and contain no interior newline", "sync.Pool modelled as a LIFO list under the scheduler"}
+	r.Assumptions = []string{"levels from {-128,-1,0,1,3,6,7,127} (never 10, the separator byte)", "lines end in exactly one newline and contain no interior newline", "sync.Pool modelled as a LIFO list under the scheduler"}
 	L := 5
 	if tier == "thorough" {
 		L = 6
 	}
-	lvls := []zerolog.Level{-128, -1, 0, 1, 3, 9, 127}
+	lvls := []zerolog.Level{-128, -1, 0, 1, 3, 6, 7, 127} // (6 = NoLevel, 7 = Disabled: levels like any other for a LevelWriter)
 	var ops []op
 	for _, l := range lvls {
 		ops = append(ops, op{"w", l})
